@@ -46,6 +46,9 @@ type liveCfg struct {
 // asyncRefresh is set while a prefetch-enabled instance serves aged entries.
 var asyncRefresh bool
 
+// AD verdicts the scripted upstream gives the `cnv` alias / `tgv` target (set per op).
+var stubAliasAD, stubTargetAD bool
+
 var strictOptOwner = os.Getenv("VERIF_C05_STRICT_OPT_OWNER") != ""
 
 var (
@@ -263,6 +266,18 @@ func stubRespond(req *dns.Msg) *dns.Msg {
 		if scn == "cnf" && q.Qtype == dns.TypeA {
 			m.Answer = append(m.Answer, &dns.A{Hdr: dns.RR_Header{Name: target, Rrtype: dns.TypeA, Class: q.Qclass, Ttl: 300}, A: net.IPv4(192, 0, 2, 1)})
 		}
+	case "cnv":
+		// mixed-validation chain: the alias and its (shorter-lived) target carry
+		// the AD verdict the running op scripted for each
+		m.Answer = append(m.Answer, &dns.CNAME{Hdr: dns.RR_Header{Name: owner, Rrtype: dns.TypeCNAME, Class: q.Qclass, Ttl: 200}, Target: under("tgv", restOf(q.Name))})
+		m.AuthenticatedData = stubAliasAD
+	case "tgv":
+		if q.Qtype == dns.TypeA {
+			m.Answer = append(m.Answer, &dns.A{Hdr: dns.RR_Header{Name: owner, Rrtype: dns.TypeA, Class: q.Qclass, Ttl: 60}, A: net.IPv4(192, 0, 2, 77)})
+		} else {
+			m.Ns = append(m.Ns, soaFor(zone, 60))
+		}
+		m.AuthenticatedData = stubTargetAD
 	case "sig", "sgt":
 		addr()
 		if len(m.Answer) > 0 {
@@ -773,6 +788,8 @@ func execE2E(f []string) vlib.Res {
 		return execQ(kv(f[2:]))
 	case "raw":
 		return execRaw(kv(f[2:]))
+	case "seq":
+		return execSeq(kv(f[2:]))
 	}
 	return vlib.Res{Impl: "bad-op"}
 }
@@ -827,6 +844,15 @@ func execQ(a map[string]string) vlib.Res {
 	shift := atoiD(a["shift"], 0)
 	warm := a["warm"]
 	clientCookie := []byte{0xc0, 0x05, byte(n >> 8), byte(n), 1, 2, 3, 4}
+	if mix := a["mix"]; len(mix) == 3 {
+		// alias AD x first target AD x AD of the re-admitted target
+		stubAliasAD, stubTargetAD = mix[0] == '1', mix[1] == '1'
+		defer func() { stubAliasAD, stubTargetAD = false, false }()
+		if warm != "raw" && warm != "msg" {
+			warm = "raw"
+		}
+		shift = 100
+	}
 
 	var names [3]string
 	var remotes [3]net.Addr
@@ -870,6 +896,19 @@ func execQ(a map[string]string) vlib.Res {
 	}
 	if shift > 0 && live.Cache != nil {
 		cache.VerifC05Shift(live.Cache, time.Duration(shift)*time.Second)
+	}
+	if mix := a["mix"]; len(mix) == 3 && live.Cache != nil {
+		// the target (TTL 60) has expired by now, the alias (TTL 200) has not:
+		// re-admit the target with its second verdict by asking for it directly
+		stubTargetAD = mix[2] == '1'
+		ts := s
+		ts.cookie, ts.nsid, ts.ka, ts.pad, ts.ecs, ts.ver, ts.rd = "-", false, false, 0, false, 0, true
+		if i := strings.Index(ts.name, "."); i >= 0 {
+			ts.name = "tgv" + ts.name[i:]
+		}
+		for p := 0; p < 3; p++ {
+			live.Raw(ts.build(markers[p], nil, nil), remoteFor(p, "tcp", false, 63000+n))
+		}
 	}
 	warmCalls := live.Stub.Calls.Load() - callsBefore
 	asyncRefresh = liveC.prefetch > 0
@@ -1082,4 +1121,82 @@ func execRaw(a map[string]string) vlib.Res {
 		st = "t"
 	}
 	return vlib.Res{Impl: fmt.Sprintf("raw=%s strict=%s msg=%s inline=%s/%s up=%d,%d,%d", rs[0].class, st, rs[1].class, rs[2].class, inl1(rs[2]), calls[0], calls[1], calls[2]), Oracle: verdict, Tags: tags}
+}
+
+// execSeq: one client's history of (transport, client cookie, with/without the
+// server half it last received for that cookie), run identically by three
+// isomorphic clients through the three entries; compared step by step.
+// steps=uA0,tB0,uB1 : u/t = UDP/TCP, A..D = client cookie, 0 = client half
+// only, 1 = plus the server half last received for this cookie, s = plus a
+// stale server half.
+func execSeq(a map[string]string) vlib.Res {
+	if live == nil {
+		return vlib.Res{Impl: "no-live"}
+	}
+	opSeq++
+	n := opSeq
+	steps := strings.Split(a["steps"], ",")
+	base := qspec{name: a["name"], qtype: uint16(atoiD(a["qt"], 1)), qclass: 1, id: uint16(atoiD(a["id"], 99)), rd: true, edns: true, usz: 1232,
+		do: boolS(a["do"])}
+	if liveC.erl > 0 {
+		cache.VerifC05ResetEntryLimiters()
+	}
+	order := []int{0, 1, 2}
+	switch a["ord"] {
+	case "1":
+		order = []int{1, 2, 0}
+	case "2":
+		order = []int{2, 0, 1}
+	}
+	var replies [3][]reply
+	var sent [3][]sentInfo
+	for _, p := range order {
+		issued := map[byte][]byte{}
+		for _, st := range steps {
+			if len(st) != 3 {
+				return vlib.Res{Impl: "bad-op"}
+			}
+			proto := "udp"
+			if st[0] == 't' {
+				proto = "tcp"
+			}
+			cc := []byte{0xc0, 0x05, byte(n >> 8), byte(n), st[1], st[1], 7, 7}
+			s := base
+			s.cookie = "c"
+			var prev []byte
+			switch st[2] {
+			case '1':
+				if full := issued[st[1]]; len(full) > 8 {
+					s.cookie, prev = "e", full
+				}
+			case 's':
+				s.cookie = "s"
+			}
+			pkt := s.build(markers[p], prev, cc)
+			remote := remoteFor(p, proto, boolS(a["v6"]), n)
+			r := serve(p, pkt, remote, proto)
+			replies[p] = append(replies[p], r)
+			sent[p] = append(sent[p], sentInfo{pkt: pkt, remote: remote, cookie: cc})
+			if c := replyCookie(r); len(c) > 8 && string(c[:8]) == string(cc) {
+				issued[st[1]] = c
+			}
+		}
+	}
+	pn := []string{"raw", "msg", "inline"}
+	verdict := "ok"
+	for i := range steps {
+		for _, pr := range [][2]int{{0, 1}, {0, 2}} {
+			if d := diff(pn[pr[0]], pn[pr[1]], replies[pr[0]][i], replies[pr[1]][i], sent[pr[0]][i], sent[pr[1]][i]); d != "" && verdict == "ok" {
+				verdict = fmt.Sprintf("FAIL sig=%s step#%d(%s) %s", sigOf(d), i+1, steps[i], d)
+			}
+		}
+	}
+	cls := func(rs []reply) string {
+		var o []string
+		for _, r := range rs {
+			o = append(o, r.class)
+		}
+		return strings.Join(o, ",")
+	}
+	return vlib.Res{Impl: fmt.Sprintf("raw=%s msg=%s inline=%s", cls(replies[0]), cls(replies[1]), cls(replies[2])), Oracle: verdict, Tags: "nt"}
 }
